@@ -201,6 +201,25 @@ def run_case(emit, cid, cs, rng, sample):
                             "stop_crit=%.4g, reference violation of the returned point=%.4g (tol=%g)" % (stop, cert, tol),
                             stop=float(stop), cert=float(cert), tol=tol,
                             ratio=float(stop / cert) if cert > 0 else None))
+    # ---- restart from the converged point with the intercept moved: the stopping value returned by that run must again be
+    # the violation of ITS returned point (a value that leaves the intercept out shows up here at once)
+    if (not viols and stop <= tol and case.fit_intercept and case.solver_name in HOOKED and np.all(np.isfinite(w))
+            and case.ref_df.kind != "multitask"):
+        w1 = np.array(w, dtype=float, copy=True)
+        w1[-1] += 1.5
+        wb, bb = case.ref.split(w1)
+        o2 = case.solve(np.ascontiguousarray(w1), np.ascontiguousarray(case.Xd @ wb + bb))
+        if o2["exc"] is None and o2["stop"] <= tol and np.all(np.isfinite(o2["w"])):
+            cert2, per2, ib2 = case.certificate(o2["w"])
+            cu2 = float(np.max(per2)) if per2 is not None and len(per2) else cert2
+            c = case.ref_df.curv_sup(case.y, case.Xd.shape[0])
+            cands = [cert2] + ([max(cu2, ib2 / float(np.sum(c)))] if c is not None and ib2 > 0 else [])
+            slack = SLACK["stop_abs_tol_fraction"] * tol + 1e-9 * (1 + float(np.max(np.abs(case.ref.gradient(o2["w"])))))
+            if not min(abs(o2["stop"] - cc) - SLACK["stop_rel"] * max(o2["stop"], cc) for cc in cands) <= slack:
+                viols.append(_v(case, "stop-value-differs-from-violation-of-returned-point",
+                                "restart with shifted intercept: stop_crit=%.4g, reference violation of the returned point="
+                                "%.4g (tol=%g)" % (o2["stop"], cert2, tol), stop=float(o2["stop"]), cert=float(cert2), tol=tol,
+                                start="optimum+shift_intercept"))
     rec = dict(base, nontrivial=bool(n_outer and n_outer >= 1),
                count=dict(history_entries=int(len(obj)), tolerance_exits=int(stop <= tol),
                           two_sided_checks=int(two_sided is not None)),
